@@ -20,9 +20,10 @@ def build_and_demo(demo_c, tag):
     if r.returncode: return {'build': 'FAILED', 'log': (r.stdout + r.stderr)[-800:]}
     t = sh('%s/polyseed-tests | tail -1' % b)
     suite = 'All tests were successful' in t.stdout
-    if cf:
+    bt = os.environ.get('SEED_BUILD_TYPE', 'RelWithDebInfo')
+    if cf or bt != 'RelWithDebInfo':
         shutil.rmtree(b, ignore_errors=True)
-        r = sh('cmake -G Ninja -S %s -B %s -DCMAKE_BUILD_TYPE=RelWithDebInfo -DCMAKE_C_FLAGS=%s && cmake --build %s' % (WT, b, cf, b))
+        r = sh('cmake -G Ninja -S %s -B %s -DCMAKE_BUILD_TYPE=%s %s && cmake --build %s' % (WT, b, bt, ('-DCMAKE_C_FLAGS=' + cf) if cf else '', b))
         if r.returncode: return {'build': 'FAILED', 'log': (r.stdout + r.stderr)[-800:]}
     exe = '/tmp/seed_demo_%s' % tag
     c = sh('gcc -O1 ' + cf + ' -I%s/include -DPOLYSEED_STATIC %s %s/libpolyseed.a -lutf8proc -lpthread -lm -o %s' % (WT, demo_c, b, exe))
@@ -79,7 +80,7 @@ def main():
         sh('git -C %s checkout -- .; git -C %s clean -fdq' % (WT, WT))
     meta = {'property': pid, 'candidate': letter, 'origin': 'independent sub-agent given only the property text and a scratch worktree (%s)' % (src_root or '/tmp/seed_%s' % pid),
             'repo_head': head, 'valid': bool(ok), 'confirmed_by_me': {'unchanged_tree': clean, 'changed_tree': changed,
-            'library_cflags': os.environ.get('SEED_CFLAGS', ''), 'how': 'scratch worktree /tmp/wt_seedeval of /repo HEAD: cmake RelWithDebInfo build, polyseed-tests, demo.c linked against libpolyseed.a; with and without patch.diff'},
+            'library_cflags': os.environ.get('SEED_CFLAGS', ''), 'demo_library_build_type': os.environ.get('SEED_BUILD_TYPE', 'RelWithDebInfo'), 'how': 'scratch worktree /tmp/wt_seedeval of /repo HEAD: cmake RelWithDebInfo build, polyseed-tests, demo.c linked against libpolyseed.a; with and without patch.diff'},
             'checks_run': res, 'needs_to_manifest': 'see README.txt'}
     old = os.path.join(dst, 'meta.json')
     if os.path.exists(old):
